@@ -47,6 +47,10 @@ pub struct C14Plan {
     /// configured but nobody listens there (the proxy attempt fails: configured 404)
     #[serde(default)]
     pub backend: u8,
+    /// the request says HTTP/1.0: such a connection cannot be upgraded, so even the fully valid
+    /// request may be refused - but then exactly like its twin on an unknown path
+    #[serde(default)]
+    pub http10: bool,
 }
 
 fn header_lines(name: &str, exact: &str, cased: &str, near: &str, v: u8) -> String {
@@ -62,7 +66,7 @@ fn header_lines(name: &str, exact: &str, cased: &str, near: &str, v: u8) -> Stri
     }
 }
 pub fn build_request(p: &C14Plan, path: &str) -> String {
-    let mut s = format!("{} {} HTTP/1.1\r\nHost: sim.example\r\n", METHODS[(p.method as usize) % 4], path);
+    let mut s = format!("{} {} HTTP/1.{}\r\nHost: sim.example\r\n", METHODS[(p.method as usize) % 4], path, if p.http10 { 0 } else { 1 });
     s += &header_lines("Connection", "upgrade", "UpGrade", "upgrade2", p.hv[0]);
     s += &header_lines("Upgrade", "websocket", "WebSocket", "websockets", p.hv[1]);
     s += &header_lines("Sec-WebSocket-Version", "13", "13", "12", p.hv[2]);
@@ -118,7 +122,7 @@ pub fn expect(p: &C14Plan) -> Expect {
     // Sec-WebSocket-Version has no letters: the "near-miss" (12) is wrong, "case-changed" is the same
     if !ok {
         Expect::NoUpgrade
-    } else if undetermined {
+    } else if undetermined || p.http10 {
         Expect::Either
     } else {
         Expect::Upgrade
@@ -389,7 +393,9 @@ pub fn run(plan: &C14Plan, sched: &Sched) -> Outcome {
             let m = METHODS[(plan.method as usize) % 4];
             let want_main = format!("{m} {path} HTTP/1.1");
             let want_twin = format!("{m} /no-such-path HTTP/1.1");
-            if !backend_saw.contains(&want_main) || !backend_saw.contains(&want_twin) {
+            // (what version the proxy speaks to the backend for an HTTP/1.0 request is its own business)
+            let saw = |want: &str| backend_saw.contains(&want.to_string()) || (plan.http10 && backend_saw.contains(&want.replace("HTTP/1.1", "HTTP/1.0")));
+            if !saw(&want_main) || !saw(&want_twin) {
                 o.violate("C14:backend-request-mismatch", format!("a refused request to a gated path must be handled like one to an unknown path, i.e. forwarded to the backend unchanged; the backend saw {backend_saw:?}; {desc}"));
             }
             if main.get("x-served-by") != Some("backend") {
